@@ -864,7 +864,7 @@ func runPrimitives(c *Ctx) {
 }
 
 func runC09(c *Ctx) {
-	c.Res.Rule = "part A: every cbor.Encoder method (+appendCborTypePrefix, AppendEmbeddedJSON/CBOR) on boundary values: lengths 0,1,22..25,254..257,65535,65536, integers around every width boundary of int8..int64/uint8..uint64 and of the 1/2/4/8-byte argument, float specials (zeros, infinities, quiet/signalling/negative NaNs, subnormals, extremes) and random bit patterns, times with zero and non-zero nanoseconds from year 1 to 2^61 s, durations with every unit incl. negative, three dst buffers; part B (binary_log): seeded random programs over Event/Context/Array/Dict/Object/Fields with every field method, nesting <= 3, context splice; directed: every ErrorMarshalFunc answer class at every call site; 25 entry points that end in a message (Msg / Msgf / MsgFunc / Send / WithLevel / Err, Print / Printf / Println, Logger.Write directly and through io.WriteString / fmt.Fprintf / fmt.Fprintln / log.New(l, ...) / log.SetOutput(l), the package-level functions of zerolog/log) x 6 loggers (plain, context, Timestamp hook, Caller hook, a user hook logging the message and level it is handed, all of them) x 11 messages (0 / 1 / 23 / 24 / 255 / 256 bytes, non-ASCII, inner and trailing newlines): exact keys, order and values, message and every text field a definite text string; non-trivial = the call appended more than one byte / the event has a field besides level; distinct by call text"
+	c.Res.Rule = "part A: every cbor.Encoder method (+appendCborTypePrefix, AppendEmbeddedJSON/CBOR) on boundary values: lengths 0,1,22..25,254..257,65535,65536, integers around every width boundary of int8..int64/uint8..uint64 and of the 1/2/4/8-byte argument, float specials (zeros, infinities, quiet/signalling/negative NaNs, subnormals, extremes) and random bit patterns, times with zero and non-zero nanoseconds from year 1 to 2^61 s, durations with every unit incl. negative, three dst buffers; part B (binary_log): seeded random programs over Event/Context/Array/Dict/Object/Fields with every field method, nesting <= 3, context splice; directed: every ErrorMarshalFunc answer class at every call site; 25 entry points that end in a message (Msg / Msgf / MsgFunc / Send / WithLevel / Err, Print / Printf / Println, Logger.Write directly and through io.WriteString / fmt.Fprintf / fmt.Fprintln / log.New(l, ...) / log.SetOutput(l), the package-level functions of zerolog/log) x 6 loggers (plain, context, Timestamp hook, Caller hook, a user hook logging the message and level it is handed, all of them) x 11 messages (0 / 1 / 23 / 24 / 255 / 256 bytes, non-ASCII, inner and trailing newlines): exact keys, order and values, message and every text field a definite text string; Fields() sweep: 90 values over every type appendFieldList's switch names and its neighbours (net.IP 4/16/0/3 bytes, net.HardwareAddr, net.IPNet, time.Time, time.Duration, []byte, json.RawMessage, error, Stringer-only types, pointers to them, nil pointers, slices of them, scalar pointers) x Fields(map) / Fields(slice) x event / context / inside a Dict, under two duration configurations, each demanded as the documented item and compared item-for-item with the dedicated method (IPAddr, MACAddr, IPPrefix, Time, Dur, Bytes, RawJSON, AnErr, Times, Durs, Errs, Strs, Str, Interface); marshal globals at run time: 6 programs (assigned before the logger exists / between events incl. back to the default / between With() layers / inside Func / inside MarshalZerologObject / inside a hook) x 8 call sites that reach InterfaceMarshalFunc x 5 user functions (HTML-escaping, wrapping, redacting, constant, failing), the tag-262 payload demanded to be the installed function's answer; ErrorMarshalFunc, ErrorStackMarshaler, LevelFieldMarshalFunc, CallerMarshalFunc, TimestampFunc and the six field names assigned between the events of one logger; non-trivial = the call appended more than one byte / the event has a field besides level; distinct by call text"
 	c.OpenShards("From Verif Require Import Base.Prelude Base.CborSpec Enc.CborEnc Harness.C09H.\nOpen Scope N_scope.",
 		"(tables * (list N * call)) * list N", "mismatches c09_run c09_eqb", 120)
 	runPrimitives(c)
